@@ -279,6 +279,26 @@ fn c09_pass(space: &crate::spaces::Space, texts: &[String], few_offsets: bool) -
                     if !same {
                         viol(&mut t, text, 0, format!("find_iter yields {:?} but captures_iter yields {:?}", a, b));
                     }
+                    // every item of captures_iter is what a fresh search from the item's own start
+                    // reports, group by group (patterns without \G / \K, whose results depend on the
+                    // search position itself): state carried from one step of the iterator to the next
+                    // must not leak into the groups
+                    if same && !facts.has_contg && !facts.has_keepout {
+                        for item in ci.items.iter().flatten() {
+                            if let Some((s0, _)) = item[0] {
+                                if !text.is_char_boundary(s0) || s0 > text.len() {
+                                    continue;
+                                }
+                                t.evaluations += 1;
+                                if let Out::Match(fresh) = engine::captures_at(&re, text, s0) {
+                                    if &fresh != item {
+                                        viol(&mut t, text, s0, format!("captures_iter yields {:?} but captures_from_pos({}) = {:?}", item, s0, fresh));
+                                        break;
+                                    }
+                                }
+                            }
+                        }
+                    }
                 }
                 if is_vm && any {
                     t.nontrivial += 1;
@@ -312,7 +332,7 @@ pub fn run_c09(cx: &Ctx) -> i32 {
         t,
         Finish {
             rule: format!(
-                "every pattern of {} (patterns with backreferences also spelled with relative \\k<-n> and named \\k<n> references) x every text over {:?} up to length {} x every offset: is_match <=> find is Some <=> captures is Some; captures_from_pos(t,p).get(0) == find_from_pos(t,p); captures_iter yields exactly the spans find_iter yields, in order (an Err from one entry point must be an Err from its sibling); no reference model involved; non-trivial = (pattern,text) VM-compiled with at least one match; plus a tall pass: every context x one-node fillers ({}) over long regular texts (a^n, a^n b, b a^n, (ab)^n, a^n e-acute; n up to 40 quick / 72 thorough) from the offsets 0, 1 and the middle, same oracles",
+                "every pattern of {} (patterns with backreferences also spelled with relative \\k<-n> and named \\k<n> references) x every text over {:?} up to length {} x every offset: is_match <=> find is Some <=> captures is Some; captures_from_pos(t,p).get(0) == find_from_pos(t,p); captures_iter yields exactly the spans find_iter yields, in order (an Err from one entry point must be an Err from its sibling); no reference model involved; non-trivial = (pattern,text) VM-compiled with at least one match; every captures_iter item equals, group by group, captures_from_pos from the item's own start (patterns without \\G / \\K); plus a tall pass: every context x one-node fillers ({}) over long regular texts (a^n, a^n b, b a^n, (ab)^n, a^n e-acute; n up to 40 quick / 72 thorough) from the offsets 0, 1 and the middle, same oracles",
                 space.describe(), alphabet, max_len, tall_space.describe()
             ),
             exhaustive: true,
